@@ -849,6 +849,47 @@ func suiteRace(o *Out, thorough bool, seed int64) {
 			o.Fail(line, b)
 		}
 	}
+	// cold phase: arguments that no earlier evaluation has seen (caches keyed by argument values would be
+	// filled concurrently here), results judged independently
+	coldTrees := map[string]*formula.SourceCode{}
+	for _, t := range []string{"regexp(s, pat)", "replace(s, pat, 'X')", "useTimezone(date(2024, 1, 2), z) == date(2024, 1, 2)", "toString(n) + toString(n * 2)", "lpad(s, '0', w)", "round(n) + roundBank(n)", "join([s, pat], ',')"} {
+		if sc, err := formula.ParseSourceCode([]byte(t)); err == nil {
+			coldTrees[t] = sc
+		}
+	}
+	for round := 0; round < rounds; round++ {
+		var wg sync.WaitGroup
+		var mu sync.Mutex
+		var bad []string
+		for g := 0; g < 8; g++ {
+			wg.Add(1)
+			go func(g int) {
+				defer wg.Done()
+				for it := 0; it < 60; it++ {
+					pat := fmt.Sprintf("^h%d_%d_%d", round, g, it)
+					data := map[string]interface{}{"s": "h" + fmt.Sprint(round) + "_" + fmt.Sprint(g) + "_" + fmt.Sprint(it) + "x", "pat": pat, "z": "Etc/GMT-" + fmt.Sprint(1+(g+it)%12), "n": float64(g*1000+it) + 0.5, "w": 30 + it}
+					for t, sc := range coldTrees {
+						r1 := formula.NewRunner()
+						r1.SetThis(data)
+						var v interface{}
+						var e error
+						protect(func() { v, e = r1.Resolve(context.Background(), sc.Expression) })
+						if t == "regexp(s, pat)" && (e != nil || v != true) {
+							mu.Lock()
+							bad = append(bad, fmt.Sprintf("regexp(%q, %q) gave %v, %v under concurrency", data["s"], pat, v, e))
+							mu.Unlock()
+						}
+					}
+				}
+			}(g)
+		}
+		wg.Wait()
+		line := fmt.Sprintf("NOP\trace\tcold%d", round)
+		o.Case(line, "-", true)
+		for _, b := range bad {
+			o.Fail(line, b)
+		}
+	}
 	o.Notes = append(o.Notes, fmt.Sprintf("%d rounds of 2/4/16 goroutines x 150 operations on %d shared trees (evaluate with own runner and data, collect fields, parse and format errors of other texts); a data race is reported by the race detector (exit status 66)", rounds, len(trees)))
 }
 
